@@ -35,7 +35,8 @@ CONSTANTS Models,      \* e.g. {"M1","M2"}
           PVals,       \* ids of pandas values
           MVals,       \* ids of module values
           WithDelSpace,\* explore `del model.<space>` (known finding KF:C18.space-deleted)
-          ExploreTainted, \* FALSE: states reached through a known-finding situation are judged but not expanded
+          OpenFindings, \* KF labels of findings not repaired in the code: states reached through
+                        \* their situation are judged and printed but not expanded
           MaxOps,      \* history length bound
           Dump         \* print histories for replay on the real library
 
@@ -116,27 +117,29 @@ RmNewRef(St, m, sp, n, v) ==
             !.refs[m] = Rederive(St, m, @ \cup {[sp |-> sp, n |-> n, v |-> v, d |-> FALSE]}),
             !.v2r[m]  = @ \cup {[v |-> v, sp |-> sp, n |-> n]}], "ok")
 
-\* ReferenceManager.change_ref, model.py:1956-1981
-\*  1958-1961 remember the previous reference and its value;
-\*  1963-1968 replace it (ModelImpl.change_ref = del + new, model.py:957-959;
-\*            SpaceManager.change_ref, model.py:1514-1545: the reference
-\*            becomes a defined one, derived copies follow);
-\*  1970-1978 un-register the previous reference; if it was the LAST one of
-\*            its value, delete the value's spec (first found);
-\*  1980-1981 register the new reference.
+\* ReferenceManager.change_ref (model.py, class ReferenceManager)
+\*  - remember the previous reference and its value;
+\*  - replace it (ModelImpl.change_ref = del + new; SpaceManager.change_ref:
+\*    the reference becomes a defined one, derived copies follow);
+\*  - register the NEW reference first (so that re-assigning the current
+\*    value keeps the registration non-empty);
+\*  - un-register the previous reference object; if it was the LAST one of
+\*    its value, delete the value's spec (first found).
 RmChangeRef(St, m, sp, n, v) ==
     LET prev == CHOOSE r \in RefsAt(St, m, sp, n) : TRUE
+        new  == [v |-> v, sp |-> sp, n |-> n]
         S1 == [St EXCEPT !.refs[m] =
-                  Rederive(St, m, (@ \ {prev}) \cup {[sp |-> sp, n |-> n, v |-> v, d |-> FALSE]})]
-        regp == {t \in St.v2r[m] : t.v = prev.v}
+                  Rederive(St, m, (@ \ {prev}) \cup {[sp |-> sp, n |-> n, v |-> v, d |-> FALSE]}),
+                         !.v2r[m] = @ \cup {new}] IN
+    IF prev.v = v THEN Result(S1, "ok")      \* old object out, new object in: same entry
+    ELSE
+    LET regp == {t \in S1.v2r[m] : t.v = prev.v}
         me   == [v |-> prev.v, sp |-> sp, n |-> n]
-        left == IF prev.d THEN regp ELSE regp \ {me}
-        S2 == IF regp # {} /\ left = {}
-              THEN LET S2a == [S1 EXCEPT !.v2r[m] = @ \ regp] IN
-                   IF HasSpec(S2a, m, prev.v) THEN MgrDelSpec(S2a, GetSpec(S2a, m, prev.v))
-                   ELSE S2a
-              ELSE [S1 EXCEPT !.v2r[m] = IF prev.d THEN @ ELSE @ \ {me}] IN
-    Result([S2 EXCEPT !.v2r[m] = @ \cup {[v |-> v, sp |-> sp, n |-> n]}], "ok")
+        left == IF prev.d THEN regp ELSE regp \ {me} IN
+    IF regp # {} /\ left = {}
+    THEN LET S2 == [S1 EXCEPT !.v2r[m] = @ \ regp] IN
+         Result(IF HasSpec(S2, m, prev.v) THEN MgrDelSpec(S2, GetSpec(S2, m, prev.v)) ELSE S2, "ok")
+    ELSE Result([S1 EXCEPT !.v2r[m] = IF prev.d THEN @ ELSE @ \ {me}], "ok")
 
 \* set_attr: UserSpaceImpl space.py:1742-1768, ModelImpl model.py:978-984
 \* (reached from `parent.name = value`, parent.py:93-104)
@@ -179,12 +182,16 @@ RmDelRef(St, m, sp, n) ==
 \*           that is not a reference (cells, child space) -> KeyError before
 \*           anything is created;
 \*  923/943  IOManager.new_spec (may raise: location already claimed);
+\*           new_pandas only: a value that is referenced in the model and already
+\*           has a spec -> ValueError before anything is created;
 \*  930-934  set_attr; on ValueError/KeyError/AttributeError the spec is
 \*           deleted again and KeyError raised.
 NewSpecStep(St, op) ==
     LET m == op.m  sp == op.sp  n == op.n IN
     IF n \in Namespace(St, m, sp) /\ n \notin OwnNames(St, m, sp) \cup GlobalNames(St, m)
     THEN Result(St, "rejected")
+    ELSE IF op.kind = "csv" /\ op.v \in {t.v : t \in St.v2r[m]} /\ HasSpec(St, m, op.v)
+    THEN Result(St, "rejected")   \* new_pandas: "data already has <spec>" (a referenced value has one spec)
     ELSE IF ~MgrCanAdd(St, m, op.loc) THEN Result(St, "rejected")
     ELSE LET r == SetAttr(MgrNewSpec(St, m, op.loc, op.v), m, sp, n, op.v) IN
          IF r.res = "ok" THEN r ELSE Result(St, "rejected")
@@ -203,16 +210,12 @@ DelRefStep(St, op) ==
 \*            (IOManager.update_spec_value, baseio.py:245-252);
 \*  2004-2012 every registered reference is re-bound at impl level
 \*            (derived copies follow);
-\*  2014-2015 _valid_to_refs: the old entry is popped and the entry of the
-\*            new value is OVERWRITTEN with the moved references.
+\*  2014-2016 _valid_to_refs: the old entry is popped and the moved references
+\*            are ADDED to the entry of the new value.
 UpdateStep(St, op) ==
     LET m == op.m
         reg == {t \in St.v2r[m] : t.v = op.old} IN
     IF reg = {} THEN Result(St, "rejected")
-    ELSE IF \E t \in reg : t.sp # "" /\ t.sp \notin St.sp[m]
-    THEN \* a registration left behind by a deleted space: the re-binding raises
-         \* half way (only reachable after DelSpace, known finding)
-         Result(St, "rejected")
     ELSE
     LET S1 == IF HasSpec(St, m, op.old)
               THEN LET sp0 == GetSpec(St, m, op.old) IN
@@ -223,7 +226,7 @@ UpdateStep(St, op) ==
         S2 == [S1 EXCEPT !.refs[m] = Rederive(S1, m,
                   {r \in @ : [sp |-> r.sp, n |-> r.n] \notin moved}
                   \cup {[sp |-> x.sp, n |-> x.n, v |-> op.new, d |-> FALSE] : x \in moved})] IN
-    Result([S2 EXCEPT !.v2r[m] = {t \in @ : t.v # op.old /\ t.v # op.new}
+    Result([S2 EXCEPT !.v2r[m] = {t \in @ : t.v # op.old}
                                    \cup {[v |-> op.new, sp |-> x.sp, n |-> x.n] : x \in moved}],
            "ok")
 
@@ -236,11 +239,20 @@ RemoveBaseStep(St, op) ==
     LET S1 == [St EXCEPT !.base[op.m] = FALSE] IN
     Result([S1 EXCEPT !.refs[op.m] = Rederive(S1, op.m, @)], "ok")
 
-\* `del model.A`: ModelImpl.del_attr (model.py:986-989) -> del_defined_space;
-\* the references of the space go with it, the ReferenceManager is not told
+\* `del model.A`: ModelImpl.del_attr -> SpaceUpdater.del_defined_space; the
+\* references of the space go with it and ReferenceManager.del_space_refs
+\* un-registers the defined ones; a value whose last registration goes loses
+\* its spec (first found)
 DelSpaceStep(St, op) ==
-    LET S1 == [St EXCEPT !.sp[op.m] = @ \ {op.sp}, !.base[op.m] = FALSE] IN
-    Result([S1 EXCEPT !.refs[op.m] = Rederive(S1, op.m, {r \in @ : r.sp # op.sp})], "ok")
+    LET m == op.m
+        S1 == [St EXCEPT !.sp[m] = @ \ {op.sp}, !.base[m] = FALSE]
+        S2 == [S1 EXCEPT !.refs[m] = Rederive(S1, m, {r \in @ : r.sp # op.sp})]
+        regs == {t \in St.v2r[m] : t.sp = op.sp
+                   /\ \E r \in St.refs[m] : r.sp = t.sp /\ r.n = t.n /\ r.v = t.v /\ ~r.d}
+        S3 == [S2 EXCEPT !.v2r[m] = @ \ regs]
+        dead == {v \in {t.v : t \in regs} : ~\E t \in S3.v2r[m] : t.v = v}
+        gone == {GetSpec(S3, m, v) : v \in {v \in dead : HasSpec(S3, m, v)}} IN
+    Result([S3 EXCEPT !.mgr = SelectSeq(@, LAMBDA e : e \notin gone)], "ok")
 
 \* System.close_model, system.py:657-661 -> ReferenceManager.del_all_spec
 \* (model.py:1983-1986): the specs reachable through _valid_to_refs
@@ -296,11 +308,11 @@ MinV(s) == CHOOSE x \in s : \A y \in s : x <= y
 FreshM(St) == LET f == MVals \ LiveVals(St) IN IF f = {} THEN {} ELSE {MinV(f)}
 
 OpsOf(St, m) ==
-    {[op |-> "new_spec", m |-> m, sp |-> sp, n |-> n, loc |-> loc, v |-> v] :
+    {[op |-> "new_spec", m |-> m, sp |-> sp, n |-> n, loc |-> loc, kind |-> "csv", v |-> v] :
         sp \in Parents(St, m), n \in Names, loc \in CsvLocs, v \in PVals}
-    \cup UNION {{[op |-> "new_spec", m |-> m, sp |-> sp, n |-> n, loc |-> loc, v |-> v] :
+    \cup UNION {{[op |-> "new_spec", m |-> m, sp |-> sp, n |-> n, loc |-> loc, kind |-> "csv", v |-> v] :
                     n \in BadNames(sp), loc \in CsvLocs, v \in PVals} : sp \in Parents(St, m)}
-    \cup {[op |-> "new_spec", m |-> m, sp |-> sp, n |-> n, loc |-> loc, v |-> v] :
+    \cup {[op |-> "new_spec", m |-> m, sp |-> sp, n |-> n, loc |-> loc, kind |-> "module", v |-> v] :
         sp \in Parents(St, m), n \in Names, loc \in ModLocs, v \in FreshM(St)}
     \cup {[op |-> "assign", m |-> m, sp |-> sp, n |-> n, v |-> v] :
         sp \in Parents(St, m), n \in Names,
@@ -343,15 +355,17 @@ Do(op) ==
         /\ lab' = j.labels
         /\ hist' = Append(hist, op @@ [res |-> r.res])
 
+OpenTaint == {t \in P.taint : t.k \in OpenFindings}
+
 \* spec -> code: the history by which TLC first reached a state is printed when
 \* the state is expanded, i.e. once per distinct abstract state
 \* (of the states reached through a known finding only those with short histories)
-Emit == (Dump /\ (P.taint = {} \/ Len(hist) <= 3)) => PrintT(<<"MBT", ToJson([h |-> hist, lab |-> SetToSeq(lab)])>>)
+Emit == (Dump /\ (OpenTaint = {} \/ Len(hist) <= 3)) => PrintT(<<"MBT", ToJson([h |-> hist, lab |-> SetToSeq(lab)])>>)
 
-\* states reached through a known-finding situation are judged (invariants) and
-\* printed for replay, but not expanded (unless ExploreTainted)
+\* states reached through the situation of a finding that is still open are
+\* judged (invariants) and printed for replay, but not expanded
 Next == /\ Emit
-        /\ ExploreTainted \/ P.taint = {}
+        /\ OpenTaint = {}
         /\ Len(hist) < MaxOps
         /\ \E op \in Ops(S) : Do(op)
 
@@ -367,13 +381,17 @@ Inv_C18_LocationsUnique       == "C18.LocationsUnique" \notin lab
 Inv_C18_RejectedLeavesNothing == "C18.RejectedLeavesNothing" \notin lab
 Inv_C18_SanityChecks          == "C18.SanityChecks" \notin lab
 Inv_C18_SavedSpecsRoundTrip   == "C18.SavedSpecsRoundTrip" \notin lab
+\* repaired findings must not come back; open ones are demonstrated by MC_MxIOSpec_kf.cfg
+Inv_NoRepairedFinding         == lab \cap (KFLabels \ OpenFindings) = {}
 Inv_NoKnownFinding            == lab \cap KFLabels = {}
 
 \* hist does not distinguish states: every abstract state is expanded once
 \* bounded search with several workers: the depth is part of the identity, so
 \* that the set of states explored does not depend on the scheduling
-View  == <<S, P, lab, Len(hist)>>
+\* (taints of repaired findings do not distinguish states: every discrepancy
+\*  carries some label and every label is an invariant)
+View  == <<S, P.io, OpenTaint, lab, Len(hist)>>
 \* complete (unbounded) search: the abstract state alone
-ViewU == <<S, P, lab>>
+ViewU == <<S, P.io, OpenTaint, lab>>
 
 =============================================================================
